@@ -31,7 +31,7 @@ def k_dt(chk, ctx, rng, n):
         else: chk.k_bad('dt', dict(d=d, nus=nus, ms=str(ms), gammas=gammas, hs=hs), impl, model, abs(impl - model))
 
 SZ_Q = {1: (5, 10), 2: (4, 5), 3: (3, 4), 4: (3, 3), 5: (3, 3)}
-SZ_T = {1: (5, 20), 2: (4, 8), 3: (4, 6), 4: (3, 4), 5: (3, 4)}
+SZ_T = {1: (5, 20), 2: (4, 8), 3: (4, 6), 4: (3, 4), 5: (3, 3)}      # 5-D with 4 points per axis: up to ten minutes per exact sweep
 
 def k_sweep(chk, ctx, rng, n, tier):
     """inject + one full time step through the public driver (T < dt so exactly one step) vs model `sweep`;
@@ -42,7 +42,6 @@ def k_sweep(chk, ctx, rng, n, tier):
         t_case = _t.time()
         d = 1 + it % 5
         lo, hi = (SZ_T if tier == 'thorough' else SZ_Q)[d]
-        if d == 5 and it % 2 == 1: hi = 3      # 5-D multi-step runs in exact rationals: 4 points per axis take a quarter of an hour each
         pts = int(rng.integers(lo, hi + 1))
         xx, kind = gen.grid(rng, pts)
         phi = gen.coarse(gen.density(rng, [pts] * d), 24)
